@@ -443,7 +443,8 @@ Qed.
 Lemma adj_outer_ok orig width : GC orig -> forall starts best, best_ok (length (items orig)) best ->
   eok (length (items orig)) (fst (adj_outer ev orig width starts best)).
 Proof.
-  intros Go. induction starts as [|st more IH]; intros best Hb; cbn [adj_outer]; [exact Hb|].
+  intros Go. induction starts as [|st more IH]; intros best Hb; cbn [adj_outer];
+    [destruct (set_scope (b_args best) (sc_start orig) (sc_end orig)); [exact Hb|exact I]|].
   pose proof (adj_try_ok orig width st best Go Hb) as N.
   destruct (adj_try ev orig width st best) as [v s|b|r s]; cbn [fst step_ok] in *; [exact I|apply IH; exact N|exact N].
 Qed.
